@@ -46,10 +46,10 @@ Proof. exact leafnode_rejected_both_orders. Qed.
 Print Assumptions C17_leafnode_rejected_both_orders.
 
 (* ---------------------------------------------------------------- one link per selected job, containment *)
-(* an accepted link map of a non-empty selection has exactly one, distinct key per selected job and no
-   key is absolute, "..", or starts with "../" (55c0c50, bfa6c64) *)
+(* an accepted link map has exactly one, distinct key per selected job — also for the empty selection
+   (cfcb328) — and no key is absolute, "..", or starts with "../" (55c0c50, bfa6c64) *)
 Theorem C17_one_key_per_job : forall c lk,
-  make_links c = Ok lk -> c_jobs c <> [] ->
+  make_links c = Ok lk ->
   NoDup (map fst lk) /\ (forall k, In k (map fst lk) -> leaves_view k = false) /\
   length lk = length (c_jobs c).
 Proof. exact make_links_spec. Qed.
@@ -203,13 +203,14 @@ Theorem C17_view_one_job_noop :
 Proof. exact single_job_noop. Qed.
 Print Assumptions C17_view_one_job_noop.
 
-(* ---------------------------------------------------------------- still open (known findings 3 and 5) *)
-Theorem C17_one_link_per_job_refuted_empty_selection :
-  let c := mkcall [] in
-  exists lk w n, run [] world0 c = (Ok lk, (w, n)) /\ c_jobs c = [] /\
-                 get w [s_v; s_job] = Some (Lnk (join_sep [s_dotdot; s_p; s_j2])).
-Proof. exact empty_selection_links_a_job. Qed.
-Print Assumptions C17_one_link_per_job_refuted_empty_selection.
+(* ---------------------------------------------------------------- empty selection (repaired), and the one open finding (5) *)
+Theorem C17_empty_selection_no_link :
+  run [] world0 (mkcall []) = (Ok [], (world0, 0%N)) /\
+  (let '(r1, (w1, _)) := run [] world0 (mkcall [mkjob s_j1 pf_a6; mkjob s_j2 [97%N; 47%N; 53%N]]) in
+   let '(r2, (w2, _)) := run [] w1 (mkcall []) in
+   is_ok r1 = true /\ r2 = Ok [] /\ get w1 [s_v; s_a] <> None /\ get w2 [s_v] = Some (Dir [])).
+Proof. exact empty_selection_no_link. Qed.
+Print Assumptions C17_empty_selection_no_link.
 
 Theorem C17_view_exact_refuted_leaf_name_token :
   let '(r1, (w1, _)) := run [] world0 (mkcall [mkjob s_j1 []]) in
